@@ -147,7 +147,7 @@ CHECKS = {
         "text": "Every label array over a 2-letter (quick) / 3-letter "
                 "(thorough) alphabet (incl. 2^32-1, 2^53+1, 2^64-1) for "
                 "every shape with <= 8 voxels, as 1- and 2-channel chunks, "
-                "is encoded with 12 / 27 block sizes (cubic, non-cubic, "
+                "is encoded with 12 / 20 block sizes (cubic, non-cubic, "
                 "larger than the chunk, non-dividing) for uint32 and "
                 "uint64; plus a bit-width ladder (1..65537 labels per "
                 "block, every bit width 0..32), shared tables, tables "
